@@ -24,8 +24,8 @@ EVID = os.path.join(ROOT, "evidence")
 REPLAYS = os.path.join(ROOT, "replays")
 if os.path.realpath(REPO) != "/repo":
     # a run against a scratch tree (seeded / benign / reverted changes) must not overwrite the evidence of /repo
-    EVID = os.path.join(WORK, "scratch-evidence")
-    REPLAYS = os.path.join(WORK, "scratch-replays")
+    EVID = os.path.join(WORK, "scratch-evidence", os.path.basename(os.path.realpath(REPO)))
+    REPLAYS = os.path.join(WORK, "scratch-replays", os.path.basename(os.path.realpath(REPO)))
 HARNESS = os.path.join(ROOT, "harness")
 BIN = os.path.join(LEAN, ".lake", "build", "bin")
 
